@@ -1,4 +1,6 @@
 //! C08 - hostile or vanishing peers cause an error return, never a panic or a hang.
+use rand::{Rng, SeedableRng};
+use rand_chacha::ChaCha8Rng;
 use serde_json::json;
 
 use crate::adv::{self, ByteMut, CrashAt, FaultAction, FaultPlan, Target, What};
@@ -40,6 +42,23 @@ pub fn build(tier: &str, seed: u64) -> World {
                     }
                     let plan = FaultPlan { corrupt: c, actions: vec![FaultAction { target: target.clone(), what: What::Bytes(bm.clone()) }], crash: None, seed: seed_case };
                     cases.push(FaultCase::new(ci, plan, format!("bytes:{bm:?}"), m.label.clone()));
+                }
+                // schema-free sweep: every byte offset of a short message (all of them up to 64 bytes, else the
+                // first 24 and 8 others) is overwritten once - whatever the layout, each small field takes an
+                // out-of-range value in some case
+                if m.k == 0 || thorough {
+                    let len = m.len;
+                    let mut offs: Vec<usize> = if len <= 64 { (0..len).collect() } else { (0..24).collect() };
+                    if len > 64 {
+                        let mut r = ChaCha8Rng::seed_from_u64(seed_case ^ 0x0ff5);
+                        for _ in 0..8 {
+                            offs.push(r.random_range(24..len));
+                        }
+                    }
+                    for off in offs {
+                        let plan = FaultPlan { corrupt: c, actions: vec![FaultAction { target: target.clone(), what: What::Bytes(ByteMut::SetByteAt(off)) }], crash: None, seed: seed_case };
+                        cases.push(FaultCase::new(ci, plan, "bytes:SetByteAt".to_string(), m.label.clone()));
+                    }
                 }
                 if let Some(tree) = &m.tree {
                     let muts = codec::enumerate(tree, if thorough { Density::Full } else { Density::Sampled });
@@ -93,7 +112,7 @@ pub fn child(tier: &str, seed: u64, a: shard::ShardArgs) {
 
 pub fn run(tier: &str, seed: u64) -> i32 {
     let mut rep = Report::new("C08", tier, seed, "fault_enumeration");
-    rep.rule = "one corrupted party; for every message it sends (per configuration, receiver and occurrence): byte-level classes, structure-aware tree mutations (element count +-1 / emptied / halved at each nesting level, Some<->None, bool byte 2) and a crash after the message with both send-to-dead semantics. distinct = (configuration, corrupted party, label, mutation class); non-trivial = the mutation changed the bytes on the wire or the crash point was reached".into();
+    rep.rule = "one corrupted party; for every message it sends (per configuration, receiver and occurrence): byte-level classes (incl. schema-free emptying / shortening of the last vector and, for the first occurrence of each label, a sweep that overwrites every byte offset of short messages), structure-aware tree mutations (element count +-1 / emptied / halved at each nesting level, Some<->None, bool byte 2) and a crash after the message with both send-to-dead semantics. distinct = (configuration, corrupted party, label, mutation class); non-trivial = the mutation changed the bytes on the wire or the crash point was reached".into();
     rep.assumptions = vec![
         "peer termination closes its endpoints: receive from a terminated peer fails after queued messages are drained".into(),
         "allocation bound: a single request attributed to an honest party must stay below max(8 MiB, 64 x bytes received) + honest baseline".into(),
